@@ -206,6 +206,8 @@ class BinarySearchTreeAdapted(Sampling):
         return res
 
     def sample_with_us(self, us: np.array):
+        # (work on a copy: the uniforms are shifted below, and they belong to the caller)
+        us = np.array(us, dtype=float)
         # find the bucket where to sample the state
         bucket_positions = np.searchsorted(self._cum_ps, us)
         bucket_coordinates = [
